@@ -837,6 +837,8 @@ def corpus_case(draw, max_extent=4, spacetime_ratio=2, static_only=True,
         c = draw(case_flat_discord(max_extent=max_extent))
     elif fam == "affine":
         c = draw(case_affine(max_extent=max_extent, allow_reverse=static_only))
+    elif fam == "conv2p":
+        c = draw(case_conv2p(max_extent=max_extent))
     else:
         c = draw(case_cascade(max_extent=3))
     c.setdefault("family", fam)
@@ -847,6 +849,47 @@ def corpus_case(draw, max_extent=4, spacetime_ratio=2, static_only=True,
             mode = "spacetime"
     c["mode"] = mode
     return c
+
+
+# --------------------------------------------------------------------------
+# 2-D convolution with BOTH output index ranks shape-partitioned and both input ranks following (two projected,
+# partitioned ranks in one Einsum: two interval computations)
+
+
+@st.composite
+def case_conv2p(draw, max_extent=5):
+    """O[p, q] = I[p + r, q + s] * F[r, s]; P: [uniform_shape(P0)], H: [follow(P)], Q: [uniform_shape(Q0)], W: [follow(Q)].
+    Built outside every known-finding class of C04/C06: unit coefficients, one level per rank, conventionally named symbolic
+    sizes, followers not looped, no input partition starting beyond the output extent."""
+    def dim():
+        for _ in range(20):
+            q = draw(st.integers(1, max_extent))
+            t = draw(st.integers(1, 3))
+            step = draw(st.integers(1, q + 1))
+            w = q + t - 1
+            if step * ((w - 1) // step) <= q:
+                return q, t, step
+        return 1, 1, 1
+    P, R, p0 = dim()
+    Q, S_, q0 = dim()
+    ext = {"P": P, "R": R, "Q": Q, "S": S_, "H": P + R - 1, "W": Q + S_ - 1}
+    i_idx = [_ie((1, "p"), (1, "r")), _ie((1, "q"), (1, "s"))]
+    f_idx = [plain("r"), plain("s")]
+    facs = [{"t": "I", "idx": i_idx}, {"t": "F", "idx": f_idx}]
+    if draw(st.booleans()):
+        facs.reverse()
+    decl = [["F", ["R", "S"]], ["I", ["H", "W"]], ["O", ["P", "Q"]]]
+    spec = {"decl": decl, "exprs": [{"out": ["O", [plain("p"), plain("q")]], "terms": [{"take": None, "factors": facs}]}],
+            "rank_order": {}, "loop_order": {}, "partitioning": {}, "spacetime": {}, "extra": {}}
+    spec["partitioning"] = {"O": [["P", ["uniform_shape(P0)"]], ["H", ["follow(P)"]], ["Q", ["uniform_shape(Q0)"]], ["W", ["follow(Q)"]]]}
+    groups = [["P1", "P0"], ["Q1", "Q0"], ["R"], ["S"]]
+    spec["loop_order"] = {"O": draw(interleave(list(draw(st.permutations(groups)))))}
+    rt = draw(runtime(spec, extents=ext))
+    rt["sizes"].update({"P0": p0, "Q0": q0})
+    case = {"spec": spec, "template": "conv2p", "part_levels": 0, "affine": [], "part_rank": None, "follower": None,
+            "followers": [], "reverse_follow": False, "family": "conv2p"}
+    case.update(rt)
+    return case
 
 
 # --------------------------------------------------------------------------
